@@ -11,6 +11,7 @@
   (field deletions, type changes, value perturbations, truncations) in all output modes.
 -/
 import YalafiVerif.Proofs.Shell
+import YalafiVerif.Proofs.Reports
 namespace Yalafi
 
 theorem C15_mapMatch_total (cm : List Int) (latex : Str) (offset len : Int) (h : cm ≠ []) :
@@ -33,5 +34,122 @@ theorem C15_jsonGet_no_crash (dic : Json) (item : Str) (typ : JType) : ∀ s, js
 theorem C15_sort_checks_offsets (cmt : List Int) (ms out : List RawMatch) (h : sortMatches cmt ms = .ok out) :
     ∀ m ∈ out, 0 ≤ m.offset ∧ m.offset < cmt.length :=
   (sortMatches_sorted cmt ms out h).2.2
+
+end Yalafi
+
+/-
+  Every location of every report lies inside the file (Model/Reports.lean, Proofs/Reports.lean;
+  tied to gentext.py / genjson.py / genxml.py by harness/corr_reports.py).
+  `InText tex p`: `p` is the offset of a character of the text.  `InFileLC tex lin col`: line `lin`
+  exists and column `col` lies on it or directly behind its last character (where its line break
+  stands).  `lineAt tex n0`: the line that begins at `n0`, without its line break.
+-/
+namespace Yalafi
+open Reports Html
+
+/-- (d) If the first character `offset` and the last character `offset + length - 1` of the match
+    are characters of the text — in particular for `0 ≤ offset`, `1 ≤ length`,
+    `offset + length ≤ len(tex)`, see `C15_report_in_file` — then the text report, JSON `priv`, XML
+    name existing lines and columns on them (`1 ≤ lin ≤ #lines`, `col - 1 ≤ len(line)`), XML-b
+    names the same lines and byte columns within the UTF-8 length of the line (`+ 1` for the end
+    column: the line break); for a text that ends in a line break (what the shell hands over)
+    `lin ≤ number of line breaks`, i.e. never the empty "line" behind the last line break. -/
+theorem C15_located_in_file (tex : Str) (offset length : Int) (h0 : InText tex offset) (he : InText tex (offset + length - 1)) :
+    let L := locate tex offset length
+    let starts := getLineStarts tex
+    InFileLC tex L.lin L.col ∧
+    InFileLC tex (L.json.fromy + 1) (L.json.fromx + 1) ∧ InFileLC tex (L.json.toy + 1) L.json.tox ∧
+    L.xml = L.json ∧ L.xmlb.fromy = L.json.fromy ∧ L.xmlb.toy = L.json.toy ∧
+    0 ≤ L.xmlb.fromx ∧ L.xmlb.fromx ≤ utf8Size (lineAt tex (starts.getD L.json.fromy.toNat 0)) ∧
+    0 ≤ L.xmlb.tox ∧ L.xmlb.tox ≤ utf8Size (lineAt tex (starts.getD L.json.toy.toNat 0)) + 1 ∧
+    (EndsNl tex → L.lin ≤ tex.count '\n' ∧ L.json.fromy + 1 ≤ tex.count '\n' ∧ L.json.toy + 1 ≤ tex.count '\n') :=
+  report_in_file tex offset length h0 he
+
+/-- (d) in the form asked for: `0 ≤ offset`, `1 ≤ length`, `offset + length ≤ len(tex)` -/
+theorem C15_report_in_file (tex : Str) (offset length : Int) (h0 : 0 ≤ offset) (hl : 1 ≤ length)
+    (he : offset + length ≤ tex.length) :
+    let L := locate tex offset length
+    InFileLC tex L.lin L.col ∧
+    InFileLC tex (L.json.fromy + 1) (L.json.fromx + 1) ∧ InFileLC tex (L.json.toy + 1) L.json.tox ∧
+    L.xml = L.json ∧ L.xmlb.fromy = L.json.fromy ∧ L.xmlb.toy = L.json.toy ∧
+    0 ≤ L.xmlb.fromx ∧ L.xmlb.fromx ≤ utf8Size (lineAt tex ((getLineStarts tex).getD L.json.fromy.toNat 0)) ∧
+    0 ≤ L.xmlb.tox ∧ L.xmlb.tox ≤ utf8Size (lineAt tex ((getLineStarts tex).getD L.json.toy.toNat 0)) + 1 ∧
+    (EndsNl tex → L.lin ≤ tex.count '\n' ∧ L.json.fromy + 1 ≤ tex.count '\n' ∧ L.json.toy + 1 ≤ tex.count '\n') :=
+  report_in_file tex offset length ⟨h0, by omega⟩ ⟨by omega, by omega⟩
+
+/-- the place named for an offset inside the text is the place of that very character; the column
+    equals the length of the line exactly when the character is the line break of the line
+    (e.g. file `abc`: the shell appends a line break; a match at offset 3 is reported at line 1,
+    column 4 — the appended line break, one behind the `c`) -/
+theorem C15_located_char (tex : Str) (p : Nat) (hp : p < tex.length) :
+    let lc := textLineCol tex p
+    InFileLC tex lc.1 lc.2 ∧
+    (EndsNl tex → lc.1 ≤ tex.count '\n') ∧
+    tex[(getLineStarts tex).getD (lc.1 - 1) 0 + (lc.2 - 1)]? = tex[p]? ∧
+    ((lc.2 - 1 = (lineAt tex ((getLineStarts tex).getD (lc.1 - 1) 0)).length) ↔ tex[p]? = some '\n') :=
+  located_in_file tex p hp
+
+/-- (d) composed with `map_match_position`: with a C01 map (every entry in `1 … len(tex)` up to
+    sign), WHATEVER offset and integer length the proofreader sends — zero and negative lengths
+    included — the first and the last character of the reported match are characters of the text,
+    so `C15_located_in_file` applies to what the reports print -/
+theorem C15_mapped_report_in_file (cm : List Int) (tex : Str) (offset len : Int) (L : Located)
+    (hcm : ∀ p ∈ cm, 1 ≤ iabs p ∧ iabs p ≤ tex.length)
+    (h : reportAll cm tex offset (some (.int len)) = .ok L) :
+    InText tex L.offset ∧ InText tex (L.offset + L.length - 1) ∧ L = locate tex L.offset L.length ∧
+    InFileLC tex L.lin L.col ∧
+    InFileLC tex (L.json.fromy + 1) (L.json.fromx + 1) ∧ InFileLC tex (L.json.toy + 1) L.json.tox ∧
+    L.xml = L.json ∧ L.xmlb.fromy = L.json.fromy ∧ L.xmlb.toy = L.json.toy ∧
+    0 ≤ L.xmlb.fromx ∧ 0 ≤ L.xmlb.tox := by
+  have ⟨a, b, c⟩ := mapped_report_in_file cm tex offset len L hcm h
+  have r := report_in_file tex L.offset L.length a b
+  rw [← c] at r
+  exact ⟨a, b, c, r.1, r.2.1, r.2.2.1, r.2.2.2.1, r.2.2.2.2.1, r.2.2.2.2.2.1, r.2.2.2.2.2.2.1, r.2.2.2.2.2.2.2.2.1⟩
+
+/-- zero-length answer at plain offset `o ≥ 1`: the mapped length is `|cm[o-1]| - |cm[o]| + 1` —
+    `0` if the two characters are neighbours in the LaTeX text, NEGATIVE if markup was removed
+    between them (`ab{}cd`, plain `abcd`, offset 2, length 0: JSON `offset 4, length -2`, XML
+    `fromx 4, tox 2`): the reported end is the character in front of the removed markup.  Both ends
+    are characters of the file (`C15_mapped_report_in_file`), but the end precedes the begin. -/
+theorem C15_zero_length_mapped (cm : List Int) (tex : Str) (o : Nat) (cp cb : Int) (ho : 1 ≤ o)
+    (h1 : cm[o - 1]? = some cp) (h2 : cm[o]? = some cb) :
+    mapMatch cm tex o (some (.int 0)) =
+      .ok (iabs cb - 1, correctMarkMacroname (iabs cb - 1) (iabs cp - iabs cb + 1) tex) :=
+  mapMatch_zero_length cm tex o cp cb ho h1 h2
+
+/-- what is printed for a match of (mapped) length 0 at offset `b ≥ 1`: Python computes
+    `end = b - 1`; the "end" is the character in front — same line, `tox = fromx` — or, at the
+    begin of a line, the line break of the line above: `toy = fromy - 1`, `tox = len(line) + 1` -/
+theorem C15_zero_length_report (tex : Str) (b : Nat) (hb : 1 ≤ b) (hlt : b ≤ tex.length) :
+    let j := jsonPriv tex b 0
+    (tex[b - 1]? ≠ some '\n' → j.toy = j.fromy ∧ j.tox = j.fromx) ∧
+    (tex[b - 1]? = some '\n' → j.toy = j.fromy - 1 ∧ j.fromx = 0 ∧
+       j.tox = (lineAt tex ((getLineStarts tex).getD j.toy.toNat 0)).length + 1) :=
+  zero_length_report tex b hb hlt
+
+/-! the two observations, on the model (= the real code, by correspondence) -/
+
+/-- file `abc` + appended line break, match at offset 3, length 1: line 1, column 4 -/
+example : locate "abc\n".toList 3 1 =
+    { offset := 3, length := 1, lin := 1, col := 4, json := ⟨0, 3, 0, 4⟩, xml := ⟨0, 3, 0, 4⟩, xmlb := ⟨0, 3, 0, 4⟩ } := by decide
+
+/-- `ab{}cd`, plain text `abcd` + the two padding entries, zero-length answer at plain offset 2 -/
+example : reportAll [1, 2, 5, 6, 7, 7, 7] "ab{}cd\n".toList 2 (some (.int 0)) =
+    .ok { offset := 4, length := -2, lin := 1, col := 5, json := ⟨0, 4, 0, 2⟩, xml := ⟨0, 4, 0, 2⟩, xmlb := ⟨0, 4, 0, 2⟩ } := by decide
+
+/-- `length = 0` at offset 0 — Python's `end = -1` counts from the END of the text: JSON / XML
+    would name the last line and a NEGATIVE column (outside the file) … -/
+example : jsonPriv "a\nb\n".toList 0 0 = { fromy := 0, fromx := 0, toy := 1, tox := -2 } := by decide
+
+/-- … but `map_match_position` never delivers that pair: at plain offset 0 a zero length becomes 1
+    (and with a C01 map `1 ≤ offset + length` always: `C15_mapped_report_in_file`); it takes a map
+    entry `0` (no C01 map) to get there -/
+example : mapMatch [1, 2, 3, 4] "a\nb\n".toList 0 (some (.int 0)) = .ok (0, 1) := by decide
+example : reportAll [0, 2, 3, 4] "a\nb\n".toList 0 (some (.int 0)) =
+    .ok { offset := -1, length := 1, lin := 2, col := -2, json := ⟨1, -3, 1, -2⟩, xml := ⟨1, -3, 1, -2⟩, xmlb := ⟨1, 1, 1, 0⟩ } := by decide
+
+/-- non-vacuity of `C15_mapped_report_in_file`: a C01 map and an answer behind the end of the map -/
+example : reportAll [1, 5, 6, 7, 7, 7] "aä\n€b c\nxy\n".toList 40 (some (.int (-3))) =
+    .ok (locate "aä\n€b c\nxy\n".toList 6 (-1)) := by decide
 
 end Yalafi
